@@ -39,9 +39,10 @@ use tokio_tungstenite::tungstenite::Message as WsMsg;
 
 type Ws = tokio_tungstenite::WebSocketStream<tokio::net::TcpStream>;
 
-const WINDOW: Duration = Duration::from_secs(15);
+const WINDOW: Duration = Duration::from_secs(12);
 const ROUTES: [&str; 5] = ["json_blocking", "json_ctx_blocking", "typed_blocking", "typed_ctx_blocking", "erased_offreader"];
 static CONN_IDS: AtomicU64 = AtomicU64::new(1);
+static PLAIN_PANICS: AtomicU64 = AtomicU64::new(0);
 
 // ------------------------------------------------------------------ scripts
 
@@ -347,7 +348,11 @@ fn park(sh: &Shared, v: &Value) -> Result<Value, (ErrorCode, String)> {
     match out {
         Out::Ret => Ok(json!({ "tok": tok })),
         Out::Err => Err((ErrorCode::ApplicationErrorBase, format!("E{tok}"))),
-        Out::Panic => panic!("c16 scripted handler panic {tok}"),
+        // Most scripted panics unwind without running the panic hook (identical for the code under test:
+        // an unwind out of the handler) so that a thorough run does not print 10^5 panic messages;
+        // the first three of a run are plain `panic!`s.
+        Out::Panic if PLAIN_PANICS.fetch_add(1, Ordering::Relaxed) < 3 => panic!("c16 scripted handler panic {tok}"),
+        Out::Panic => std::panic::resume_unwind(Box::new(format!("c16 scripted handler panic {tok}"))),
     }
 }
 
@@ -777,8 +782,36 @@ impl Drv {
             self.viol(format!("C16:connection-lost:{what}"), format!("connection ended ({why}) while waiting for the reply to request id {id}; cap {}", self.cap));
             return false;
         }
-        if self.pending.contains_key(&id) {
-            self.progress_viol(format!("C16:no-reply:{what}"), format!("request id {id} got no reply within {:?} after its handler was let go; cap {}", WINDOW, self.cap));
+        if let Some(exp) = self.pending.get(&id).cloned() {
+            let (cur, max) = self.sh.gauge(self.conn);
+            match exp {
+                Exp::Call { tok, .. } => {
+                    let (st, ex) = (self.started.contains(&tok), self.exited.contains(&tok));
+                    let had_gate = what.starts_with("released-");
+                    if had_gate && st && !ex {
+                        // between the gate and the handler's return there is only harness code and the OS scheduler
+                        self.inconcl.push(format!("{what}: handler of request id {id} did not return within {:?} after its gate was opened (gauge {cur}/{max}); harness or scheduling trouble", WINDOW));
+                    } else {
+                        let state = if ex { "handler-returned" } else if st { "handler-running" } else { "handler-never-started" };
+                        // triage evidence: is the connection still serving inline calls, does the reply come late?
+                        let (pid, ptok) = (self.new_id(), self.new_tok());
+                        self.pending.insert(pid, Exp::Ping { tok: ptok });
+                        self.send_all(vec![req_frame(pid, false, "/ping", &json!({ "tok": ptok }))]).await;
+                        let dl2 = Instant::now() + Duration::from_secs(5);
+                        while (self.pending.contains_key(&pid) || self.pending.contains_key(&id)) && self.pump(dl2).await {}
+                        let ping_ok = !self.pending.contains_key(&pid);
+                        let late = !self.pending.contains_key(&id);
+                        self.progress_viol(
+                            format!("C16:no-reply:{what}:{state}"),
+                            format!(
+                                "request id {id} token {tok} got no reply within {:?}; its handler started={st} returned={ex}; gauge now {cur} (max {max}); cap {}; a ping sent afterwards was answered={ping_ok}; the reply arrived in the next 5 s={late}",
+                                WINDOW, self.cap
+                            ),
+                        );
+                    }
+                }
+                _ => self.progress_viol(format!("C16:no-reply:{what}"), format!("request id {id} got no reply within {:?}; gauge now {cur} (max {max}); cap {}", WINDOW, self.cap)),
+            }
             return false;
         }
         true
